@@ -31,7 +31,7 @@ class ResWorld(World):
     name = "W-res"
 
     def __init__(self, variant: str = "full", low_energy: bool = True, pairs: bool = True, prices: bool = False,
-                 mechs=("quiet", "small", "quiet"), idle_timeout: int = 120, gas: bool = False, name: str = "", atomic_pairs: bool = False, v0_energy=None, split_base: bool = False):
+                 mechs=("quiet", "small", "quiet"), idle_timeout: int = 120, gas: bool = False, name: str = "", atomic_pairs: bool = False, v0_energy=None, split_base: bool = False, throttle: float = 1.0):
         super().__init__()
         self.pairs = pairs
         if name:
@@ -54,6 +54,10 @@ class ResWorld(World):
             v0 = mk_vehicle(env, rn, "v0", S["A"], mechs[0], energy=v0_energy)
         v1 = mk_vehicle(env, rn, "v1", S["N1"], mechs[1], energy=0.70 if mechs[1] == "small" else None)
         v2 = mk_vehicle(env, rn, "v2", S["X1"], mechs[2], soc=0.5, energy=0.05 if mechs[2] == "ice" else None)
+        if throttle < 1.0:
+            # the station's DCFC plug was throttled at run time (grid co-simulation hook): 12 kW instead of 50 kW
+            s0 = s0.scale_charger_rate("DCFC", throttle).unwrap()
+            bs = bs.scale_charger_rate("LEVEL_2", throttle).unwrap()
         if prices:
             # non-round tariffs from the start (through the station's own update_prices), changed later by price rows
             import immutables
